@@ -90,20 +90,33 @@ type c16Ent struct {
 	boltz.BaseExtEntity
 	Name  string
 	Owner string
+	// wide strategies (c16_wide.go): the first derived copy that disagrees with the field it was derived from
+	Bad string
 }
 
 func (e *c16Ent) GetEntityType() string { return c16Type }
 
-type c16Strategy struct{}
+type c16Strategy struct{ wide bool }
 
 func (c16Strategy) NewEntity() *c16Ent { return new(c16Ent) }
-func (c16Strategy) FillEntity(e *c16Ent, b *boltz.TypedBucket) {
+func (s c16Strategy) FillEntity(e *c16Ent, b *boltz.TypedBucket) {
 	e.LoadBaseValues(b)
 	e.Name = b.GetStringOrError("name")
 	e.Owner = b.GetStringWithDefault("owner", "")
+	e.Bad = ""
+	if s.wide {
+		e.Bad = c16WideCheck(b, "name", e.Name)
+	}
 }
-func (c16Strategy) PersistEntity(e *c16Ent, ctx *boltz.PersistContext) {
+func (s c16Strategy) PersistEntity(e *c16Ent, ctx *boltz.PersistContext) {
 	e.SetBaseValues(ctx)
+	if s.wide {
+		// the same fields through other setters, and a copy of the name through every remaining one (c16_wide.go)
+		ctx.GetAndSetString("name", e.Name)
+		c16WidePersist(ctx, "name", e.Name)
+		ctx.SetStringP("owner", &e.Owner)
+		return
+	}
 	ctx.SetString("name", e.Name)
 	ctx.SetString("owner", e.Owner)
 }
@@ -114,16 +127,27 @@ type c16Kid struct {
 	Level string
 }
 
-type c16KidStrategy struct{ parent *boltz.BaseStore[*c16Ent] }
+type c16KidStrategy struct {
+	parent *boltz.BaseStore[*c16Ent]
+	wide   bool
+}
 
 func (s *c16KidStrategy) NewEntity() *c16Kid { return new(c16Kid) }
 func (s *c16KidStrategy) FillEntity(e *c16Kid, b *boltz.TypedBucket) {
 	_, err := s.parent.LoadEntity(b.Tx(), e.Id, &e.c16Ent)
 	b.SetError(err)
 	e.Level = b.GetStringWithDefault("level", "")
+	if s.wide && e.Bad == "" {
+		e.Bad = c16WideCheck(b, "level", e.Level)
+	}
 }
 func (s *c16KidStrategy) PersistEntity(e *c16Kid, ctx *boltz.PersistContext) {
 	s.parent.GetEntityStrategy().PersistEntity(&e.c16Ent, ctx.GetParentContext())
+	if s.wide {
+		ctx.SetStringP("level", &e.Level)
+		c16WidePersist(ctx, "level", e.Level)
+		return
+	}
 	ctx.SetString("level", e.Level)
 }
 
@@ -138,7 +162,7 @@ type c16Env struct {
 // reg: where the system entity constraint is registered: "S" (the parent store), "C" (the child store only, through
 // the isSystem symbol the parent grants), "B" (both), "N" (nowhere); "P": the PLAIN shape — constraint on S and no
 // child store at all (S has neither a parent nor child store strategies)
-func c16Open(reg string) *c16Env {
+func c16Open(reg string, wide bool) *c16Env {
 	dir, err := os.MkdirTemp("", "verif-*")
 	if err != nil {
 		panic(err)
@@ -171,7 +195,7 @@ func c16Open(reg string) *c16Env {
 	}
 	st := boltz.NewBaseStore(boltz.StoreDefinition[*c16Ent]{
 		EntityType:      c16Type,
-		EntityStrategy:  c16Strategy{},
+		EntityStrategy:  c16Strategy{wide: wide},
 		BasePath:        []string{c16Root},
 		EntityNotFoundF: notFound,
 	})
@@ -180,7 +204,7 @@ func c16Open(reg string) *c16Env {
 	var kids *boltz.BaseStore[*c16Kid]
 	if reg != "P" {
 		kids = boltz.NewBaseStore(boltz.StoreDefinition[*c16Kid]{
-			EntityStrategy: &c16KidStrategy{parent: st},
+			EntityStrategy: &c16KidStrategy{parent: st, wide: wide},
 			BasePath:       []string{"ext"},
 			Parent:         st,
 			ParentMapper: func(entity boltz.Entity) boltz.Entity {
@@ -322,7 +346,14 @@ func c16Ignorable(r string) bool {
 
 type c16Checker map[string]struct{}
 
-func (c c16Checker) IsUpdated(f string) bool { _, ok := c[f]; return ok }
+// a derived copy `<field>.<x>` (wide strategies) counts as `<field>`
+func (c c16Checker) IsUpdated(f string) bool {
+	if i := strings.IndexByte(f, '.'); i >= 0 {
+		f = f[:i]
+	}
+	_, ok := c[f]
+	return ok
+}
 
 func c16B(b bool) string {
 	if b {
@@ -531,6 +562,8 @@ func (e *c16Env) view(tx *bbolt.Tx, pool, opool []string) string {
 					level = "?"
 				case kid.IsSystemEntity() != ent.IsSystemEntity() || kid.Name != ent.Name:
 					level = "?mismatch"
+				case kid.Bad != "":
+					level = "?bad:" + kid.Bad
 				default:
 					level = toWire(kid.Level)
 				}
@@ -545,7 +578,11 @@ func (e *c16Env) view(tx *bbolt.Tx, pool, opool []string) string {
 				}
 				ps = strings.Join(w, ",")
 			}
-			b.WriteString("t/" + c16B(ent.IsSystemEntity()) + "/" + toWire(ent.Name) + "/" + c16Tag(ent) + "/" +
+			name := toWire(ent.Name)
+			if ent.Bad != "" {
+				name += "?" + ent.Bad
+			}
+			b.WriteString("t/" + c16B(ent.IsSystemEntity()) + "/" + name + "/" + c16Tag(ent) + "/" +
 				c16ShowTime(ent.CreatedAt) + "/" + c16ShowTime(ent.UpdatedAt) + "/" + toWire(ent.Owner) + "/" + level + "/" + ps + "/" + raw)
 		}
 		b.WriteString(";")
@@ -591,11 +628,13 @@ func c16Pool(s string) []string {
 
 func c16Exec(line string) string {
 	f := fields(line)
-	reg := c16Reg(f[0])
-	e := c16envs[reg]
+	base, wide := c16WideKind(f[0])
+	reg := c16Reg(base)
+	key := reg + c16B(wide)
+	e := c16envs[key]
 	if e == nil {
-		e = c16Open(reg)
-		c16envs[reg] = e
+		e = c16Open(reg, wide)
+		c16envs[key] = e
 	}
 	e.wipe()
 	ps, os_, _ := strings.Cut(f[1], "/")
@@ -649,7 +688,7 @@ var c16CtxKinds = []string{"o", "s", "n", "m"}
 
 func c16Gen(tier string, seed uint64, out *bufio.Writer) {
 	r := newRng(seed)
-	c16Exhaustive(out)
+	c16Exhaustive(out, "H")
 	c16Indirect(out, "H")
 	// the same paths with the constraint registered on the child store only / on both stores
 	c16Indirect(out, "HC")
@@ -661,6 +700,14 @@ func c16Gen(tier string, seed uint64, out *bufio.Writer) {
 	c16NoChange(out, "H")
 	c16NoChange(out, "HC")
 	c16Reuse(out)
+	// the WIDE strategies: every setter of PersistContext / TypedBucket on the path of the update (c16_wide.go)
+	c16Setters(out, "HPW")
+	c16Setters(out, "HW")
+	c16Setters(out, "HCW")
+	c16Exhaustive(out, "HPW")
+	c16Indirect(out, "HBW")
+	c16NoChange(out, "HPW")
+	c16NoChange(out, "HW")
 	n := 2500
 	if tier == "thorough" {
 		n = 50000
@@ -680,7 +727,7 @@ func c16Rest(mig, cAt, uAt, tag string) string {
 
 // every (creation context, creation flag, creation Migrate) x (second operation kind, its context, its flag,
 // its Migrate, checker) x (same transaction | later transaction) x (abort | keep going), then a read-back
-func c16Exhaustive(out *bufio.Writer) {
+func c16Exhaustive(out *bufio.Writer, kind string) {
 	id := toWire("a")
 	for _, cctx := range []string{"o", "s"} {
 		for _, cflag := range []string{"t", "f"} {
@@ -701,8 +748,8 @@ func c16Exhaustive(out *bufio.Writer) {
 				for _, snd := range seconds {
 					for _, mode := range []string{"a", "k"} {
 						for _, top := range []string{"O", "S"} {
-							fmt.Fprintf(out, "H %s %s%s!%s;%s %s%s!r:%s\n", id, top, mode, create, snd, "O", "a", id)
-							fmt.Fprintf(out, "H %s %s%s!%s %s%s!%s;r:%s O%s!u:o:%s:f:%s:n:%s\n", id, top, "a", create, top, mode, snd, id, mode, id, toWire("n2"), c16Rest("f", "z", "z", "~"))
+							fmt.Fprintf(out, "%s %s %s%s!%s;%s %s%s!r:%s\n", kind, id, top, mode, create, snd, "O", "a", id)
+							fmt.Fprintf(out, "%s %s %s%s!%s %s%s!%s;r:%s O%s!u:o:%s:f:%s:n:%s\n", kind, id, top, "a", create, top, mode, snd, id, mode, id, toWire("n2"), c16Rest("f", "z", "z", "~"))
 						}
 					}
 				}
@@ -720,6 +767,7 @@ func c16Exhaustive(out *bufio.Writer) {
 // constraints an operation through S reaches; the shapes are thinned out (one Migrate value, one owner, two checkers).
 func c16Indirect(out *bufio.Writer, kind string) {
 	full := kind == "H"
+	plain := strings.HasPrefix(kind, "HP")
 	a, b, c := toWire("a"), toWire("b"), toWire("c")
 	o1, o2 := toWire("o1"), toWire("o2")
 	n0, n1 := toWire("n0"), toWire("n1")
@@ -741,7 +789,7 @@ func c16Indirect(out *bufio.Writer, kind string) {
 
 	// (1) cascade: owner o1 with referrers a, b (c refers to o2 or nothing); O.DeleteById(o1) from every context
 	vias := []string{"c"}
-	if !full && kind != "HP" {
+	if !full && !plain {
 		vias = []string{"c", "C"}
 	}
 	for _, via = range vias {
@@ -776,7 +824,7 @@ func c16Indirect(out *bufio.Writer, kind string) {
 	// through the child store from every context
 	pool1 := a + "/" + o1
 	for _, pflag := range []string{"t", "f", "-"} { // "-": no parent yet
-		if kind == "HP" {
+		if plain {
 			break // no child store in this shape
 		}
 		for _, withKid := range []bool{false, true} {
@@ -846,11 +894,11 @@ func c16Indirect(out *bufio.Writer, kind string) {
 func c16NoChange(out *bufio.Writer, kind string) {
 	a, o1 := toWire("a"), toWire("o1")
 	vias := []string{"c"}
-	if kind != "HP" {
+	if !strings.HasPrefix(kind, "HP") {
 		vias = []string{"c", "C"}
 	}
 	modes := []string{"a"}
-	if kind == "HP" {
+	if strings.HasPrefix(kind, "HP") {
 		modes = []string{"a", "k"}
 	}
 	for _, via := range vias {
@@ -940,6 +988,11 @@ func c16History(r *rng, out *bufio.Writer) {
 	case w < 13:
 		kind = "HP"
 	}
+	plain := kind == "HP"
+	if r.chance(1, 4) {
+		// the wide strategies (every setter of PersistContext / TypedBucket; c16_wide.go)
+		kind += "W"
+	}
 	ntx := 2 + r.intn(6)
 	var txs []string
 	// most histories start by creating some owners from a system context, so that references have something to point at
@@ -987,7 +1040,7 @@ func c16History(r *rng, out *bufio.Writer) {
 			rest := c16Rest(mig, pick(r, c16Stamps), pick(r, c16Stamps), pick(r, c16Tags))
 			name := toWire(pick(r, c16Names))
 			w := r.intn(100)
-			if kind == "HP" && ((w >= 21 && w < 34) || (w >= 48 && w < 56) || (w >= 64 && w < 68)) {
+			if plain && ((w >= 21 && w < 34) || (w >= 48 && w < 56) || (w >= 64 && w < 68)) {
 				// no child store in the plain shape: write-backs and plain updates instead
 				if r.chance(1, 2) {
 					w = 96
